@@ -527,6 +527,10 @@ std::size_t dataframe::read_xrff(tinyxml2::XMLDocument &doc, const params &p)
 
   clear();
 
+  // The header of a XRFF file describes every column: the columns of a
+  // previous import are replaced, not extended.
+  columns = columns_info();
+
   unsigned n_output(0), output_index(0), index(0);
 
   for (auto *attribute(attributes->FirstChildElement("attribute"));
